@@ -13,7 +13,14 @@ pub fn run(cfg: &Cfg, rep: &mut Report) {
     let nhist = cfg.n(10, 150, 400) as usize;
     run_cases(cfg, "trees", ntrees, rep, |rng, ctx| {
         let (specs, nh) = TreeGen::generate(rng, true);
-        let handlers: Vec<Script> = (0..nh).map(|i| Script { id: i as u32, omnivore: true, ..Default::default() }).collect();
+        // some commands define only one form (the other one falls to the library's default stub: -113, no handler code runs)
+        let handlers: Vec<Script> = (0..nh)
+            .map(|i| {
+                let f = rng.usize(12);
+                Script { id: i as u32, omnivore: true, no_query: f == 0, no_event: f == 1, ..Default::default() }
+            })
+            .collect();
+        let forms: Vec<(bool, bool)> = handlers.iter().map(|h| (h.no_event, h.no_query)).collect();
         let built: Built<Dev, Script> = Built::new(&specs, handlers);
         let rt = RTree::from_specs(&specs);
         let mut tree_desc = String::new();
@@ -69,6 +76,11 @@ pub fn run(cfg: &Cfg, rep: &mut Report) {
                     let res = rt.resolve(from, &refs);
                     h = mix(h, hash_str(g.kind) ^ g.query as u64);
                     match res {
+                        Res::Leaf { handler, .. } if (g.query && forms[handler].1) || (!g.query && forms[handler].0) => {
+                            expect_err = true;
+                            ctx.count("unit.form-not-defined-by-the-command");
+                            break;
+                        }
                         Res::Leaf { handler, level: nl, .. } => {
                             expect.push((handler as u32, g.query));
                             if !is_common {
